@@ -475,6 +475,11 @@ class IndexSet:
     def size(self):
         raise EngineLimit("size of a symbolic index set")
 
+    def __array_function__(self, func, types, args, kwargs):
+        from .indexmodels import indexset_function
+
+        return indexset_function(func, args, kwargs)
+
     def __hash__(self):
         return id(self)
 
@@ -627,6 +632,17 @@ class SymMat:
         self.zero = zero
         self.name = name
         self.dense = None
+        self.stored = None  # number of stored entries where the constructor determines it
+
+    @property
+    def nnz(self):
+        if self.stored is None:
+            raise EngineLimit("nnz of a symbolic matrix whose number of stored entries is not determined by its constructor")
+        return self.stored
+
+    def _keep(self, m):
+        m.stored = self.stored
+        return m
 
     @staticmethod
     def fresh(name, nr, nc, fmt="csr"):
@@ -660,16 +676,16 @@ class SymMat:
         )
 
     def copy(self):
-        return SymMat(self.nr, self.nc, self._entry, self.fmt, self.diag, self.zero)
+        return self._keep(SymMat(self.nr, self.nc, self._entry, self.fmt, self.diag, self.zero))
 
     def astype(self, *a, **k):
         return self.copy()
 
     def tocsr(self, copy=False):
-        return SymMat(self.nr, self.nc, self._entry, "csr", self.diag, self.zero)
+        return self._keep(SymMat(self.nr, self.nc, self._entry, "csr", self.diag, self.zero))
 
     def tocsc(self, copy=False):
-        return SymMat(self.nr, self.nc, self._entry, "csc", self.diag, self.zero)
+        return self._keep(SymMat(self.nr, self.nc, self._entry, "csc", self.diag, self.zero))
 
     def getformat(self):
         return self.fmt
@@ -690,7 +706,7 @@ class SymMat:
         e = self._entry
         t = SymMat(self.nc, self.nr, lambda i, j: e(j, i), self.fmt, self.diag, self.zero)
         t.rowsel, t.colsel = self.colsel, self.rowsel
-        return t
+        return self._keep(t)
 
     T = property(transpose)
 
@@ -1244,6 +1260,8 @@ def FUNCTION_MODELS():
         np.size: _m_size,
         np.atleast_1d: _m_atleast_1d,
         np.where: _m_where,
+        np.nonzero: lambda a: _m_where(a),
+        np.flatnonzero: lambda a: _m_where(a)[0],
         np.concatenate: _m_concatenate,
         np.copy: lambda a, *x, **k: a.copy(),
         np.argsort: _m_argsort,
